@@ -1,6 +1,6 @@
 //! Relational oracles: C02, C03, C05, C06, C09, C10, C11, and the multi-line literal value model.
 use crate::cfg::{BeginStyle, Cfg, Le};
-use crate::grammar::{GTok, M_A, M_B, M_C, M_D, M_I, M_K, M_O, M_S, M_T};
+use crate::grammar::{GTok, M_A, M_B, M_C, M_D, M_I, M_K, M_O, M_S, M_T, M_Y};
 use crate::oracles::{case_fmt, verbatim_mask};
 use crate::refscan::{self as r, CommentKind, Kind, TextKind, Tok};
 use crate::runner::Ctx;
@@ -398,6 +398,8 @@ pub fn c05(x: &str, toks: &[GTok], out: &str, cfg: &Cfg, ctx: &mut Ctx) {
     };
     let mut ostack: Vec<Option<String>> = vec![];
     let mut kstack: Vec<Option<String>> = vec![];
+    // text of the controlling statement's first token and the indentation of the line holding it
+    let mut kline: Vec<(String, Option<String>)> = vec![];
     let mut checked = 0;
     // indentation of the line that starts the most recent declaration member
     let mut last_decl: Option<String> = None;
@@ -470,6 +472,24 @@ pub fn c05(x: &str, toks: &[GTok], out: &str, cfg: &Cfg, ctx: &mut Ctx) {
                 }
             }
         }
+        if g.marks & M_Y != 0 && !matches!(g.text.as_str(), ";" | "begin") && !(g.text == "if" && i > 0 && toks[i - 1].text == "else") {
+            // the body statement of if / while / for / with / on (not of a case label, whose
+            // statement stays on the label's line): own line, one level deeper than the line that
+            // holds the controlling statement; not judged inside an anonymous routine kept inline
+            let inline_anon = ostack.iter().any(|o| o.is_none());
+            if let Some((kt, Some(k))) = kline.last().cloned() {
+                if matches!(kt.as_str(), "if" | "while" | "for" | "with" | "on") && !inline_anon {
+                    if let Some(ind) = ind.clone() {
+                        checked += 1;
+                        let expect = format!("{k}{unit}");
+                        if !first || ind != expect {
+                            fail(ctx, "body-placement", format!("{}: first_on_line={first}, indentation {ind:?}, expected {expect:?}; output {out:?}", what("body statement")), anon_in_header);
+                            return;
+                        }
+                    }
+                }
+            }
+        }
         if g.marks & M_D != 0 {
             last_decl = if first { ind.clone() } else { None };
         }
@@ -485,6 +505,7 @@ pub fn c05(x: &str, toks: &[GTok], out: &str, cfg: &Cfg, ctx: &mut Ctx) {
         if g.marks & M_K != 0 {
             // the controlling statement's indentation is only defined when it starts its line
             kstack.push(if first { ind.clone() } else { None });
+            kline.push((g.text.clone(), ind.clone()));
             if matches!(g.text.as_str(), "if" | "while" | "for" | "with" | "on") {
                 header_depth += 1;
             }
@@ -509,6 +530,7 @@ pub fn c05(x: &str, toks: &[GTok], out: &str, cfg: &Cfg, ctx: &mut Ctx) {
         }
         for _ in 0..g.pop_k {
             kstack.pop();
+            kline.pop();
         }
         for _ in 0..g.pop_o {
             ostack.pop();
